@@ -98,6 +98,33 @@ def _flexmin_fact(repo):
     return found
 
 
+def _update_fact(repo):
+    """1 = every `if` of ConsoleOptions.update tests `<its own parameter> is not None` before assigning
+       (None = keep the inherited value, False/0 = set); 0 = some field is tested for truthiness or otherwise."""
+    tree, _ = parse(repo, "rich/console.py")
+    fn = find_func(find_class(tree, "ConsoleOptions").body, "update")
+    params = [a.arg for a in fn.args.args if a.arg != "self"]
+    for need in ("width", "justify", "overflow", "no_wrap"):
+        if need not in params:
+            raise Untranslatable(f"ConsoleOptions.update: parameter {need} missing")
+    tested = set()
+    ok = True
+    for node in fn.body:
+        if isinstance(node, ast.If):
+            t = node.test
+            good = (isinstance(t, ast.Compare) and isinstance(t.left, ast.Name) and t.left.id in params
+                    and len(t.ops) == 1 and isinstance(t.ops[0], ast.IsNot)
+                    and isinstance(t.comparators[0], ast.Constant) and t.comparators[0].value is None
+                    and not node.orelse)
+            if good:
+                tested.add(t.left.id)
+            else:
+                ok = False
+    if not set(params) <= tested:
+        ok = False
+    return 1 if ok else 0
+
+
 @generator("BoxChars.v")
 def gen_boxes(repo):
     boxes = _boxes(repo)
@@ -113,4 +140,6 @@ def gen_boxes(repo):
     text += f"Definition LEADING_MULTIPLIED : bool := {'true' if _leading_fact(repo) else 'false'}.\n"
     text += "\n(* Table._calculate_column_widths: true = a ratio column's flexible minimum includes its measured minimum *)\n"
     text += f"Definition FLEXMIN_MEASURED : bool := {'true' if _flexmin_fact(repo) else 'false'}.\n"
+    text += "\n(* ConsoleOptions.update: true = every field is guarded by `<parameter> is not None` (None keeps, False sets) *)\n"
+    text += f"Definition UPDATE_NONE_KEEPS : bool := {'true' if _update_fact(repo) else 'false'}.\n"
     return text
